@@ -14,17 +14,35 @@ from pydra.compose import python  # noqa: E402
 BASE = {"a": 100, "b": 200, "c": 300, "d": 400}
 
 
+import typing as _ty
+
+
 @python.define
-def Rec(a: int = 0, b: int = 0, c: int = 0, d: int = 0, u: int = 7) -> tuple:
+def Rec(a: _ty.Any = 0, b: _ty.Any = 0, c: _ty.Any = 0, d: _ty.Any = 0, u: int = 7) -> tuple:
     import vf.rec as R
     R.rec("Rec", a, b, c, d, u)
     return (a, b, c, d, u)
 
 
-def values(lens, dup):
+TOKENS = 4     # element kinds: 0 distinct ints, 1 a None element, 2 falsy elements (0, "", False), 3 container-valued elements
+
+
+def values(lens, dup, tok=0):
     vals = {f: [BASE[f] + i for i in range(n)] for f, n in lens.items()}
     if dup and lens.get("a", 0) >= 2:
         vals["a"][-1] = vals["a"][0]
+    for f, v in vals.items():
+        if not v:
+            continue
+        if tok == 1:
+            v[len(v) // 2] = None
+        elif tok == 2:
+            for i, x in enumerate([0, "", False][: len(v)]):
+                v[i] = x
+        elif tok == 3:
+            v[0] = [BASE[f], BASE[f] + 1]
+            if len(v) > 1:
+                v[-1] = (BASE[f],)
     return vals
 
 
@@ -32,11 +50,20 @@ def job_tuple(vals, idx, u):
     return tuple(vals[f][idx[f]] if f in idx else 0 for f in "abcd") + (u,)
 
 
-def run_split(tree, lens, dup, u, combiner=None):
+def _key(x):
+    """hashable rendering of a recorded value (lists/tuples keep their kind)"""
+    if isinstance(x, list):
+        return ("list",) + tuple(_key(e) for e in x)
+    if isinstance(x, tuple):
+        return ("tuple",) + tuple(_key(e) for e in x)
+    return (type(x).__name__, x)
+
+
+def run_split(tree, lens, dup, u, combiner=None, tok=0):
     """returns (got_outputs | None, error, bodies)"""
     E.reset()
     R.clear()
-    vals = values(lens, dup)
+    vals = values(lens, dup, tok)
     d = E.scratch()
     got = err = None
     try:
@@ -52,7 +79,7 @@ def run_split(tree, lens, dup, u, combiner=None):
     return got, err, [ev[1:] for ev in R.LOG if ev[0] == "Rec"], vals
 
 
-def l2_split(tree, lens, dup, u):
+def l2_split(tree, lens, dup, u, tok=0):
     """C01 at engine level; returns error text or None"""
     verdict, want = "accept", None
     try:
@@ -62,7 +89,7 @@ def l2_split(tree, lens, dup, u):
         verdict = "reject"
     except S.MayReject:
         verdict = "may"
-    got, err, bodies, vals = run_split(tree, lens, dup, u)
+    got, err, bodies, vals = run_split(tree, lens, dup, u, tok=tok)
     T.reach()
     if verdict == "reject":
         if got is not None:
@@ -75,9 +102,10 @@ def l2_split(tree, lens, dup, u):
             return None if not bodies else "rejected after jobs ran"
         return "well-formed split rejected: %r" % (err,)
     exp = [job_tuple(vals, idx, u) for idx in want]
-    if [tuple(x) for x in got] != exp:
+    if [_key(tuple(x)) for x in got] != [_key(e) for e in exp]:
         return "outputs %r, reference %r" % (list(got), exp)
-    if sorted(set(bodies)) != sorted(set(exp)) or len(bodies) != len(set(exp)):
+    kb, ke = [_key(b) for b in bodies], [_key(e) for e in exp]
+    if sorted(set(kb), key=repr) != sorted(set(ke), key=repr) or len(kb) != len(set(ke)):
         return "bodies ran with %r, reference jobs %r (each distinct input exactly once)" % (bodies, exp)
     return None
 
